@@ -109,6 +109,8 @@ var connTemplates = []tmpl{
 	{"write-deadline-survives-flush", true, []planOp{{0, "wbig", 0}, {1, "swd", 3}, {2, "drain", 0}}},
 	{"write-deadline-survives-queued-write", true, []planOp{{0, "wbig", 0}, {1, "swd", 3}, {2, "wsmall", 0}}},
 	{"autoclear-after-flush", true, []planOp{{0, "wbig", 0}, {1, "swd", 4}, {2, "drain", 0}, {3, "wsmall", 0}}},
+	{"autoclear-after-drained-backlog", true, []planOp{{0, "wbig", 0}, {1, "drain", 0}, {2, "swd", 4}, {3, "wsmall", 0}}},
+	{"autoclear-by-writev-after-drained-backlog", true, []planOp{{0, "wbig", 0}, {1, "drain", 0}, {2, "sd", 4}, {3, "wvsmall", 0}, {4, "srd", zeroTime}}},
 	{"close-cancels", false, []planOp{{0, "sd", 2}, {1, "close", 0}}},
 	{"close-cancels-separate", false, []planOp{{0, "srd", 2}, {0, "swd", 3}, {1, "close", 0}, {2, "srd", 4}}},
 	{"set-after-timeout-is-noop", false, []planOp{{0, "srd", 1}, {2, "srd", 4}, {3, "wsmall", 0}}},
@@ -181,13 +183,31 @@ func genConn(rnd *rand.Rand, id int, seed int64) *plan {
 	if id < len(connTemplates) {
 		t := connTemplates[id]
 		p.Template, p.NoRead, p.Ops = t.name, t.noRead, append([]planOp{}, t.ops...)
+		if t.noRead && isUDP(p.Transport) {
+			// the scenarios about a write backlog need a stream: they rotate over the stream transports only
+			p.Transport = streamTransports[k%len(streamTransports)]
+		}
 		return p
 	}
 	p.NoRead = rnd.Intn(3) == 0
 	slots := 4 + rnd.Intn(6)
 	quiet := rnd.Intn(10) < 6
 	big, drained := false, false
-	for s := 0; s < slots; s++ {
+	first := 0
+	if p.NoRead && !isUDP(p.Transport) && rnd.Intn(3) == 0 {
+		// a backlog that the poller flushes completely (the drain waits until the write queue is empty), then a write
+		// deadline and a small write that goes out at once: the write must drop the deadline
+		w := []string{"wsmall", "wvsmall"}[rnd.Intn(2)]
+		d := []string{"swd", "sd"}[rnd.Intn(2)]
+		p.Ops = append(p.Ops, planOp{Slot: 0, Op: "wbig"}, planOp{Slot: 1, Op: "drain"}, planOp{Slot: 2, Op: d, Dl: 3 + rnd.Intn(3)}, planOp{Slot: 3, Op: w})
+		big, drained, first = true, true, 4
+		if d == "sd" {
+			p.Ops = append(p.Ops, planOp{Slot: 4, Op: "srd", Dl: zeroTime})
+			first = 5
+		}
+		slots += first
+	}
+	for s := first; s < slots; s++ {
 		if rnd.Intn(100) < 25 {
 			continue
 		}
